@@ -30,6 +30,11 @@ func endToEnd(r *h.Run, idx int) {
 	r.Journal("C15 end-to-end #%d publishers=%d subscribers=%d window=%d per-qos=%d", idx, np, ns, window, perQ)
 	b := bh.NewBroker()
 	b.Mon.Inner.ClientInflightMessages = window
+	if idx%2 == 1 {
+		// a small session queue: publishers regularly run into a full queue of an
+		// online subscriber and are held back there (order must survive that)
+		b.Mon.Inner.SessionQueueSize = 2 + idx/2%6
+	}
 	if idx%2 == 0 {
 		b.Mon.Perturb = r.Rand(fmt.Sprintf("c15-perturb-%d", idx))
 	}
